@@ -67,6 +67,24 @@ pub fn scan_gate_done(n: Option<usize>) {
     }
 }
 
+/// Phase failpoint. With `VERIF_SCAN_PHASE_GATE=<dir>` the scan thread writes
+/// `<dir>/<name>.reached` when it gets to the named point and waits (bounded) for
+/// `<dir>/<name>.go`.
+pub fn phase_gate(name: &str) {
+    let Ok(dir) = std::env::var("VERIF_SCAN_PHASE_GATE") else {
+        return;
+    };
+    let dir = PathBuf::from(dir);
+    let _ = std::fs::write(dir.join(format!("{name}.reached")), b"");
+    let go = dir.join(format!("{name}.go"));
+    for _ in 0..15_000 {
+        if go.exists() {
+            break;
+        }
+        std::thread::sleep(std::time::Duration::from_millis(2));
+    }
+}
+
 impl FixtureDatabase {
     /// Public wrapper for the scan's no-cleanup analysis path.
     pub fn verif_analyze_file_fresh(&self, file_path: PathBuf, content: &str) {
